@@ -628,7 +628,7 @@ def jobs(tier):
                         functions=['core.Cache._transact', 'core.Cache.transact', 'core.Cache.set', 'core.Cache.pop', 'core.Disk.remove']))
     for a in ('touch', 'incr', 'set', 'add', 'pop', 'delete', 'get'):
         for b1 in ('delete', 'pop'):
-            out.append(dict(id='pair_seq.%s.%s+set' % (a, b1), func='ob_pair_seq', params=dict(N=1 if tier == 'quick' else 2, a=a, b1=b1, b2='set'), tags=['C05', 'C04', 'C08'] + (['C02'] if a == 'pop' else []), weight=8,
+            out.append(dict(id='pair_seq.%s.%s+set' % (a, b1), func='ob_pair_seq', params=dict(N=1 if tier == 'quick' else 2, a=a, b1=b1, b2='set'), tags=['C05', 'C04', 'C08'] + (['C02', 'C19'] if a == 'pop' else []), weight=8,
                             must_reach=['interleaved'], functions=['core.Cache.%s' % a, 'core.Cache.delete', 'core.Cache.set', 'core.Cache._transact']))
     for a in ('setf', 'addf', 'pushf'):
         for b in ('delete', 'pop', 'seti'):
